@@ -169,6 +169,15 @@ public:
                     if (pn == nullptr) {
                         //ti->store_root_ptr(nullptr);
                         // remain empty deleted root node.
+                        /**
+                         * This node is the only node of the tree now. A sibling
+                         * deleted concurrently may not have unlinked itself from
+                         * this node (it found no prev after this node cleared
+                         * it, or it had unlinked itself only from its prev), so
+                         * drop the stale links to it.
+                         */
+                        set_prev(nullptr);
+                        set_next(nullptr);
                         ti->root_unlock();
                         version_unlock();
                         return;
